@@ -209,6 +209,12 @@ async fn scenario(a: &ShardArgs, idx: u64) {
     cfg.discard = r.bool();
     cfg.confirm_timeout_ms = *r.pick(&[100u64, 1000]);
     cfg.class_zero_octets = r.bool();
+    if r.chance(1, 3) {
+        // some types are left out of class 0
+        for t in 0..7 {
+            cfg.class_zero[t] = r.chance(2, 3);
+        }
+    }
     cfg.unsolicited = false;
     let with_events = r.chance(1, 4);
     // database layout: sparse and dense index sets
@@ -442,7 +448,7 @@ async fn scenario(a: &ShardArgs, idx: u64) {
         'headers: for h in &hdrs {
             let groups: Vec<(usize, u8, Vec<u16>)> = match h {
                 Hdr::Class0 => (0..8)
-                    .filter(|t| *t != 7 || cfg.class_zero_octets)
+                    .filter(|t| if *t == 7 { cfg.class_zero_octets } else { cfg.class_zero[*t] })
                     .map(|t| (t, 0u8, snapshot.keys().filter(|k| k.0 == t).map(|k| k.1).collect::<Vec<u16>>()))
                     .filter(|g| !g.2.is_empty())
                     .collect(),
